@@ -25,6 +25,9 @@ type govState struct {
 	reads    int
 	maxReads int
 	tripped  bool
+	// the instruction executing at each trip, in order (one per aborted invocation)
+	lastOp  *byte
+	tripOps []byte
 }
 
 type governorAbort struct{ reads int }
@@ -40,6 +43,9 @@ func (g *govState) GetState(a common.Address, k common.Hash) common.Hash {
 	}
 	if g.reads > governorCap {
 		g.tripped = true
+		if g.lastOp != nil {
+			g.tripOps = append(g.tripOps, *g.lastOp)
+		}
 		panic(governorAbort{g.reads})
 	}
 	return g.StateDB.GetState(a, k)
@@ -228,7 +234,7 @@ func checkC03(sc *Scenario, st *Stats) *Violation {
 	var currentAfter []bool
 	art := RunArtela(sc, ArtelaOpts{Debug: true, Rec: rec, NoRoot: false,
 		WrapState: func(s avm.StateDB) avm.StateDB {
-			gov = &govState{StateDB: s.(*state.StateDB)}
+			gov = &govState{StateDB: s.(*state.StateDB), lastOp: &lastOp}
 			return gov
 		},
 		AfterInv: func(i int, evm *avm.EVM, s *state.StateDB, obs *Obs) {
@@ -247,11 +253,19 @@ func checkC03(sc *Scenario, st *Stats) *Violation {
 		}
 	}
 	exceptional := false
+	trips := 0
 	for i := range art.Obs {
 		o := &art.Obs[i]
 		if o.Panic != "" {
 			if strings.Contains(o.Panic, "governorAbort") {
-				return violf(fmt.Sprintf("unbounded-work/op=%02x", lastOp), "invocation %d: instruction %02x performed more than %d state reads (work governor tripped)", i, lastOp, governorCap)
+				// the instruction that was executing when THIS invocation was cut off (later
+				// invocations keep running and execute other instructions)
+				op := lastOp
+				if gov != nil && trips < len(gov.tripOps) {
+					op = gov.tripOps[trips]
+				}
+				trips++
+				return violf(fmt.Sprintf("unbounded-work/op=%02x", op), "invocation %d: instruction %02x performed more than %d state reads (work governor tripped)", i, op, governorCap)
 			}
 			return violf("panic", "invocation %d (%s, %s): the VM panicked: %.1500s", i, sc.Invs[i].Kind, sc.Note, o.Panic)
 		}
